@@ -9,6 +9,7 @@
 use crate::util::*;
 use crate::with_d;
 use easy_ml::matrices::slices::{Slice, Slice2D};
+use easy_ml::matrices::views::MatrixView;
 use easy_ml::matrices::Matrix;
 use easy_ml::tensors::indexing::{
     TensorAccess, TensorIterator, TensorOwnedIterator, TensorReferenceIterator, TensorReferenceMutIterator,
@@ -776,6 +777,15 @@ where
                 _ => t.map_mut(f),
             }))
         }
+        "map_div" => {
+            // a closure that panics on a particular element value: integer division by a zero element
+            let k: u64 = toks[1].parse().expect("k");
+            done(catch(|| match via {
+                "view" => TensorView::from(&mut *t).map_mut(|x| k / x),
+                "access" => t.index_mut().map_mut(|x| k / x),
+                _ => t.map_mut(|x| k / x),
+            }))
+        }
         "map_mut_with_index" => {
             let k: u64 = toks[1].parse().expect("k");
             let p = parse_panic_at(toks[2]);
@@ -927,21 +937,65 @@ fn matrix_op(m: &mut Matrix<u64>, toks: &[&str]) -> Result<(), PanicKind> {
             catch(|| m.retain_mut(Slice2D::new().rows(rows).columns(cols)))
         }
         "transpose_mut" => catch(|| m.transpose_mut()),
+        "set" => catch(|| m.set(n(1), n(2), toks[3].parse().unwrap())),
+        "map_mut" | "map_mut_with_index" | "map_div" => {
+            // user closures that panic on their p-th call, or on a particular element value
+            let k: u64 = toks[1].parse().expect("k");
+            let p = if toks[0] == "map_div" { None } else { parse_panic_at(toks[2]) };
+            let via = opt_arg("via", toks).unwrap_or("matrix");
+            let calls = Cell::new(0usize);
+            let tick = || {
+                if Some(calls.get()) == p {
+                    panic!("closure panics on call {}", calls.get());
+                }
+                calls.set(calls.get() + 1);
+            };
+            match (toks[0], via) {
+                ("map_mut", "view") => catch(|| MatrixView::from(&mut *m).map_mut(|x| { tick(); x.wrapping_add(k) })),
+                ("map_mut", _) => catch(|| m.map_mut(|x| { tick(); x.wrapping_add(k) })),
+                ("map_mut_with_index", "view") => catch(|| {
+                    MatrixView::from(&mut *m).map_mut_with_index(|x, i, j| { tick(); x.wrapping_add(k * (i as u64 + 1) + j as u64) })
+                }),
+                ("map_mut_with_index", _) => catch(|| {
+                    m.map_mut_with_index(|x, i, j| { tick(); x.wrapping_add(k * (i as u64 + 1) + j as u64) })
+                }),
+                // integer division: panics ("attempt to divide by zero") on a zero element
+                (_, "view") => catch(|| MatrixView::from(&mut *m).map_mut(|x| k / x)),
+                _ => catch(|| m.map_mut(|x| k / x)),
+            }
+        }
         _ => panic!("unknown matrix operation {}", toks[0]),
     }
 }
 
-/// size, stored element count and a bounded walk over the elements in both orders
-fn show_matrix_state(m: &Matrix<u64>) -> String {
+/// size, stored element count, a bounded walk over the survivor through every iterator flavour
+/// (copy / reference / mutable reference / owned, row- and column-major) and its elements
+fn show_matrix_state(m: &mut Matrix<u64>) -> String {
     let (rows, cols) = m.size();
     let len = matrix_len(m);
     let limit = len.saturating_add(2).min(1 << 20);
-    let used = match catch(|| (m.row_major_iter().take(limit).count(), m.column_major_iter().take(limit).count())) {
-        Ok((a, b)) if a == b => a.to_string(),
-        Ok((a, b)) => format!("{}/{}", a, b),
+    let used = match catch(|| {
+        let counts = vec![
+            m.row_major_iter().take(limit).count(),
+            m.column_major_iter().take(limit).count(),
+            m.row_major_reference_iter().take(limit).count(),
+            m.column_major_reference_iter().take(limit).count(),
+            m.row_major_reference_mut_iter().take(limit).count(),
+            m.column_major_reference_mut_iter().take(limit).count(),
+            m.clone().row_major_owned_iter().take(limit).count(),
+            m.clone().column_major_owned_iter().take(limit).count(),
+        ];
+        counts
+    }) {
+        Ok(c) if c.iter().all(|x| *x == c[0]) => c[0].to_string(),
+        Ok(c) => c.iter().map(|x| x.to_string()).collect::<Vec<_>>().join("/"),
         Err(k) => panic_str(k),
     };
-    format!("{}x{} len={} use={}", rows, cols, len, used)
+    let data = match catch(|| m.row_major_iter().take(limit).collect::<Vec<u64>>()) {
+        Ok(v) => show_u64s(&v),
+        Err(k) => panic_str(k),
+    };
+    format!("{}x{} len={} use={} data={}", rows, cols, len, used, data)
 }
 
 // ---------------------------------------------------------------------------------------------
@@ -985,7 +1039,11 @@ fn show_pc_state(m: &Matrix<Pc>) -> String {
         Ok((a, b)) => format!("{}/{}", a, b),
         Err(k) => panic_str(k),
     };
-    format!("{}x{} len={} use={}", rows, cols, len, used)
+    let data = match catch(|| m.row_major_reference_iter().take(limit).map(|p| p.0).collect::<Vec<u64>>()) {
+        Ok(v) => show_u64s(&v),
+        Err(k) => panic_str(k),
+    };
+    format!("{}x{} len={} use={} data={}", rows, cols, len, used, data)
 }
 
 fn pc_op(m: &mut Matrix<Pc>, toks: &[&str]) -> Result<(), PanicKind> {
@@ -1043,7 +1101,8 @@ impl Runner {
                 let (r, c): (usize, usize) = (r.parse().unwrap(), c.parse().unwrap());
                 return match catch(|| Matrix::from_flat_row_major((r, c), (1..=(r * c) as u64).collect())) {
                     Ok(m) => {
-                        let s = format!("ok {}", show_matrix_state(&m));
+                        let mut m = m;
+                        let s = format!("ok {}", show_matrix_state(&mut m));
                         self.m = Some(m);
                         s
                     }
@@ -1470,6 +1529,15 @@ fn emit_mutator(g: &mut Gen, cur: Cur, counter: &mut u64) -> Cur {
                 Cur { names: cur.names.clone(), lens: perm.iter().map(|&i| cur.lens[i]).collect() }
             }
         }
+        7 | 8 if invalid && n > 0 && g.rng.chance(1, 3) => {
+            // value-triggered panic: put a zero somewhere, then divide by every element
+            let idx: Vec<usize> = cur.lens.iter().map(|l| g.rng.below(*l)).collect();
+            tag(g, "map_div", false);
+            let via = *g.rng.pick(&["tensor", "view", "access"]);
+            g.op(format!("set {} 0 via=tensor", show_usizes(&idx)));
+            g.op(format!("map_div 5040 via={} {}", via, read));
+            cur
+        }
         7 | 8 => {
             let op = if which == 7 { "map_mut" } else { "map_mut_with_index" };
             let p = if invalid { g.rng.below(n + 1).to_string() } else { "-".to_string() };
@@ -1783,6 +1851,47 @@ pub fn gen(g: &mut Gen) {
             }
         }
     }
+    // L. stack / chain sources whose dimension ORDER is a permutation of the first source's (same
+    // names, lengths following the names), adversarial names; the permuted source in every position
+    {
+        let actions = ["copy", "ref", "mut", "owned", "map_mut", "map_mut_wi"];
+        let mut turn = 0usize;
+        for kind in ["chain", "stack"] {
+            for (form, k) in [("tuple", 2usize), ("tuple", 3), ("tuple", 4), ("array", 2), ("array", 3), ("array", 4)] {
+                for pos in 0..k {
+                    for d in [2usize, 3] {
+                        let names = adversarial_names(&mut g.rng, d);
+                        // pairwise different lengths, so that a permuted order really is another shape
+                        let lens: Vec<usize> = (0..d).map(|i| 2 + (i + turn) % 3).collect::<Vec<_>>();
+                        let lens: Vec<usize> = if d == 3 { vec![lens[0], lens[0] % 3 + 2, 5 - (lens[0] % 3)] } else { vec![lens[0], lens[0] % 3 + 2] };
+                        let mut perm: Vec<usize> = (0..d).collect();
+                        perm.rotate_left(1 + turn % (d - 1));
+                        let shapes: Vec<String> = (0..k)
+                            .map(|i| {
+                                let order: Vec<usize> = if i == pos { perm.clone() } else { (0..d).collect() };
+                                order.iter().map(|&j| format!("{}:{}", names[j], lens[j])).collect::<Vec<_>>().join(",")
+                            })
+                            .collect();
+                        let action = actions[turn % actions.len()];
+                        turn += 1;
+                        g.count(&format!("zlog.permuted-order.{}.{}{}", kind, form, k));
+                        let along = if kind == "chain" { names[turn % d].to_string() } else { format!("{}:{}", turn % (d + 1), "stacked") };
+                        g.op(format!("@ zlog {} {} {} {} {}", kind, form, along, action, shapes.join(";")));
+                    }
+                }
+            }
+        }
+        // valid constructions with adversarial names (incl. the empty name) as well
+        for _ in 0..if thorough { 40 } else { 8 } {
+            let names = adversarial_names(&mut g.rng, 2);
+            let k = g.rng.range(2, 4);
+            let shapes: Vec<String> = (0..k).map(|i| format!("{}:{},{}:2", names[0], 1 + i % 3, names[1])).collect();
+            let action = actions[turn % actions.len()];
+            turn += 1;
+            g.count("zlog.adversarial-names.valid");
+            g.op(format!("@ zlog chain {} {} {} {}", if turn % 2 == 0 { "tuple" } else { "array" }, names[0], action, shapes.join(";")));
+        }
+    }
     // G. matrices resized with invalid arguments, then walked (the survivor is used unguarded)
     let cases = if thorough { 400 } else { 60 };
     for _ in 0..cases {
@@ -1792,7 +1901,31 @@ pub fn gen(g: &mut Gen) {
         let len = g.rng.range(2, 6);
         for _ in 0..len {
             let invalid = g.rng.chance(1, 2);
-            let which = g.rng.below(7);
+            let which = g.rng.below(10);
+            if which >= 7 {
+                // closure-taking in-place operations, the closure panicking on its p-th call or on a
+                // zero element (integer division)
+                let via = *g.rng.pick(&["matrix", "view"]);
+                let cells = r * c;
+                match which {
+                    7 | 8 => {
+                        let op = if which == 7 { "map_mut" } else { "map_mut_with_index" };
+                        let p = if invalid { g.rng.below(cells + 1).to_string() } else { "-".to_string() };
+                        g.count(&format!("mop.{}.{}", op, if invalid { "closure-panics" } else { "valid" }));
+                        let k = 1 + g.rng.below(9);
+                        g.op(format!("m {} {} {} via={}", op, k, p, via));
+                    }
+                    _ => {
+                        g.count("mop.map_div");
+                        if invalid {
+                            let (zr, zc) = (g.rng.below(r), g.rng.below(c));
+                            g.op(format!("m set {} {} 0", zr, zc));
+                        }
+                        g.op(format!("m map_div 5040 via={}", via));
+                    }
+                }
+                continue;
+            }
             let name = ["insert_row", "insert_row_with", "insert_column", "insert_column_with", "remove_row",
                 "remove_column", "retain_mut"][which];
             g.count(&format!("mop.{}.{}", name, if invalid { "invalid" } else { "valid" }));
